@@ -676,3 +676,142 @@ func stripLayout(decl string, comments, edges bool) string {
 	}
 	return decl
 }
+
+// ---------------------------------------------------------------- non-ASCII look-alikes
+
+// lookalikeWord replaces one k / i / s of w by a non-ASCII character that full Unicode case folding maps
+// to it (U+212A KELVIN SIGN, U+0130 / U+0131 dotted / dotless i, U+017F long s) and upper-cases the
+// ASCII letters before it.  CSS matching is ASCII case-insensitive only: the result is another word.
+func lookalikeWord(r *rng.R, w string) (string, bool) {
+	var idx []int
+	for i := 0; i < len(w); i++ {
+		switch w[i] {
+		case 'k', 'K', 'i', 'I', 's', 'S':
+			idx = append(idx, i)
+		}
+	}
+	if len(idx) == 0 {
+		return "", false
+	}
+	// prefer an occurrence with an ASCII letter before it
+	i := idx[r.Intn(len(idx))]
+	for _, j := range idx {
+		if j > 0 && r.P(2, 3) {
+			i = j
+			break
+		}
+	}
+	var rep string
+	switch w[i] {
+	case 'k', 'K':
+		rep = "K"
+	case 'i', 'I':
+		rep = rng.Pick(r, "İ", "ı")
+	default:
+		rep = "ſ"
+	}
+	return strings.ToUpper(w[:i]) + rep + w[i+1:], true
+}
+
+// lookalikeDecl spells `name: value` with one look-alike in the property name, a keyword (idents in
+// custom-ident positions excluded), a unit or a function name.
+func lookalikeDecl(r *rng.R, name string, value []Token, keep []bool) (text, kind, control string, ok bool) {
+	var oldW, newW string
+	word := func(r *rng.R, w string) (string, bool) {
+		n, ok := lookalikeWord(r, w)
+		if ok {
+			oldW, newW = w, n
+		}
+		return n, ok
+	}
+	text, kind, ok = respellSite(r, name, value, keep, word)
+	if ok {
+		// control: the same site spelled with a plain ASCII word no grammar knows
+		control = strings.Replace(text, newW, "zzq"+oldW, 1)
+	}
+	return
+}
+
+func respellSite(r *rng.R, name string, value []Token, keep []bool, word func(*rng.R, string) (string, bool)) (string, string, bool) {
+	type site struct {
+		kind string
+		n    int
+	}
+	var sites []site
+	if !strings.HasPrefix(name, "--") {
+		sites = append(sites, site{"name", 0})
+	}
+	nId, nDim, nFn := 0, 0, 0
+	var scan func(ts []Token)
+	scan = func(ts []Token) {
+		for _, t := range ts {
+			switch v := t.(type) {
+			case pa.Ident:
+				if nId < len(keep) && !keep[nId] && !strings.HasPrefix(v.Value, "--") {
+					sites = append(sites, site{"ident", nId})
+				}
+				nId++
+			case pa.Dimension:
+				sites = append(sites, site{"unit", nDim})
+				nDim++
+			case pa.FunctionBlock:
+				sites = append(sites, site{"function", nFn})
+				nFn++
+				scan(v.Arguments)
+			}
+		}
+	}
+	scan(value)
+	for try := 0; try < 4; try++ {
+		s := sites[r.Intn(len(sites))]
+		done := false
+		cId, cDim, cFn := 0, 0, 0
+		var rec func(ts []Token) string
+		rec = func(ts []Token) string {
+			var b strings.Builder
+			for _, t := range ts {
+				switch v := t.(type) {
+				case pa.Ident:
+					if s.kind == "ident" && cId == s.n {
+						if w, ok := word(r, v.Value); ok {
+							v.Value, done = w, true
+						}
+					}
+					cId++
+					b.WriteString(serialize1(v))
+				case pa.Dimension:
+					if s.kind == "unit" && cDim == s.n {
+						if w, ok := word(r, v.Unit); ok {
+							v.Unit, done = w, true
+						}
+					}
+					cDim++
+					b.WriteString(serialize1(v))
+				case pa.FunctionBlock:
+					nm := v.Name
+					if s.kind == "function" && cFn == s.n {
+						if w, ok := word(r, nm); ok {
+							nm, done = w, true
+						}
+					}
+					cFn++
+					b.WriteString(nm + "(" + rec(v.Arguments) + ")")
+				default:
+					b.WriteString(serialize1(t))
+				}
+			}
+			return b.String()
+		}
+		n := name
+		if s.kind == "name" {
+			if w, ok := word(r, name); ok {
+				n, done = w, true
+			}
+		}
+		text := n + ": " + rec(value)
+		if done {
+			return text, s.kind, true
+		}
+	}
+	return "", "", false
+}
